@@ -70,15 +70,17 @@ VARIABLES
   mirror,   \* [Sessions -> Seq([uid, f])]           what a client knows: uid 0 / f Unknown = not learned
   taint,    \* [Sessions -> SUBSET STRING]           known deviations that already hit this session
   ever,     \* [Boxes -> SUBSET (Nat \X Msgs)]       every (uid, message) pair ever assigned (C04)
+  inv,      \* [Sessions -> BOOLEAN]                 the state was invalidated (UIDValidityBumped applied): next command is answered BYE
+  epoch,    \* [Boxes -> Nat]                        number of UIDVALIDITY bumps of the mailbox
   wire,     \* [Sessions -> Seq(response)]           output of the step just taken (not part of the view)
   last,     \* record describing the step just taken (not part of the view)
   steps,    \* number of steps taken (simulation only)
   pick,     \* simulation: the kind of action drawn for the next step (None = not drawn yet)
   hist      \* simulation: the behaviour so far (not part of the view)
 
-vars == <<rows, uidNext, flg, used, dead, recd, sel, ro, snap, res, q, idle, mirror, taint, ever, wire, last, steps, pick, hist>>
-view == <<rows, uidNext, flg, used, dead, recd, sel, ro, snap, res, q, idle, mirror, taint>>
-viewNoMirror == <<rows, uidNext, flg, used, dead, recd, sel, ro, snap, res, q, idle, taint>>
+vars == <<rows, uidNext, flg, used, dead, recd, sel, ro, snap, res, q, idle, mirror, taint, ever, inv, epoch, wire, last, steps, pick, hist>>
+view == <<rows, uidNext, flg, used, dead, recd, sel, ro, snap, res, q, idle, mirror, taint, inv, epoch>>
+viewNoMirror == <<rows, uidNext, flg, used, dead, recd, sel, ro, snap, res, q, idle, taint, inv, epoch>>
 
 -----------------------------------------------------------------------------
 (* Sequences of records carrying a message id in field m *)
@@ -196,6 +198,8 @@ FlagsU(subs) == [k |-> "Flags", subs |-> subs]
 RemoteFlagU(m, op, f) == [k |-> "RFlag", m |-> m, op |-> op, f |-> f]
 \* MessageIDChanged: the new remote id travels to the snapshots as an update without client-visible effect
 IdU(m) == [k |-> "IdChg", m |-> m]
+\* UIDValidityBumped: every state that has a mailbox selected is marked invalid (AllStateFilter: snap # nil)
+BumpU == [k |-> "Bump"]
 
 QueuedExists(rs, m) == \E i \in 1..Len(rs) : rs[i].k = "Exists" /\ rs[i].m = m
 
@@ -207,6 +211,7 @@ Passes(u, s, sn, rs) ==
        [] u.k = "Flags"   -> TRUE
        [] u.k = "RFlag"   -> HasMsg(sn, u.m) \/ (FixFilter /\ QueuedExists(rs, u.m))
        [] u.k = "IdChg"   -> HasMsg(sn, u.m) \/ (FixFilter /\ QueuedExists(rs, u.m))
+       [] u.k = "Bump"    -> TRUE
 
 \* the filter drops an update although an Exists for its message is queued (deviation F1)
 DropsQueued(u, s, sn, rs) ==
@@ -234,6 +239,7 @@ Responders(u, s, own) ==
     [] u.k = "Flags"   -> SubResponders(u.subs, s, own)
     [] u.k = "RFlag"   -> <<[k |-> "Fetch", m |-> u.m, f |-> u.f, op |-> u.op, asuid |-> FALSE, silent |-> FALSE, other |-> FALSE]>>
     [] u.k = "IdChg"   -> <<>>
+    [] u.k = "Bump"    -> <<>>
 
 \* the command's own updates are applied to its own state at once, in order:
 \* filter on the *current* snapshot, then PushResponder (queue: the session is not idle)
@@ -251,11 +257,12 @@ MsgsOfUpdate(u) ==
     [] u.k = "Flags"   -> UNION {SeqToSet(u.subs[i].ms) : i \in 1..Len(u.subs)}
     [] u.k = "RFlag"   -> {u.m}
     [] u.k = "IdChg"   -> {}          \* nothing a client can see depends on its position in the queue
+    [] u.k = "Bump"    -> {}
 JumpsQueue(s, us) ==
   \E i \in 1..Len(us), j \in 1..Len(q[s]) : MsgsOfUpdate(us[i]) \cap MsgsOfUpdate(q[s][j]) # {}
 
 \* could update u pass the filter of a session that has mailbox b selected?
-Relevant(u, b) == IF u.k \in {"Exists", "Expunge"} THEN u.box = b ELSE u.k # "IdChg"
+Relevant(u, b) == IF u.k \in {"Exists", "Expunge"} THEN u.box = b ELSE u.k \notin {"IdChg", "Bump"}
 
 EnqueueOthers(s, us) == [t \in Sessions |-> IF t = s THEN q[t] ELSE q[t] \o us]
 EnqueueAll(us) == [t \in Sessions |-> q[t] \o us]
@@ -309,13 +316,16 @@ Init ==
   /\ mirror = [s \in Sessions |-> <<>>]
   /\ taint = [s \in Sessions |-> {}]
   /\ ever = [b \in Boxes |-> {}]
+  /\ inv = [s \in Sessions |-> FALSE]
+  /\ epoch = [b \in Boxes |-> 0]
   /\ wire = Quiet
   /\ last = [act |-> "Init", s |-> None, args |-> <<>>, status |-> "OK"]
   /\ steps = 0
   /\ pick = None
   /\ hist = <<>>
 
-Ready(s) == ~idle[s] /\ (DrainFirst => q[s] = <<>>)
+Ready(s) == ~idle[s] /\ ~inv[s] /\ (DrainFirst => q[s] = <<>>)
+Fresh(m) == m \notin used /\ m \notin dead /\ m \notin recd
 
 \* commands are not explored on messages the remote has deleted meanwhile (the entity is purged from the
 \* database at an unspecified later time - when the last session that still sees it goes away)
@@ -610,8 +620,9 @@ Deliver(s) ==
                 /\ taint' = [taint EXCEPT ![s] = @ \cup (IF DropsQueued(u, s, snap[s], res[s]) THEN {"F1"} ELSE {})]
                 /\ wire' = Quiet
                 /\ UNCHANGED <<snap, mirror>>
+        /\ inv' = [inv EXCEPT ![s] = @ \/ (u.k = "Bump" /\ pass)]
         /\ Log("Deliver", s, <<u.k, pass>>, "OK")
-  /\ UNCHANGED <<rows, uidNext, flg, used, dead, recd, sel, ro, idle, ever>>
+  /\ UNCHANGED <<rows, uidNext, flg, used, dead, recd, sel, ro, idle, ever, epoch>>
 
 -----------------------------------------------------------------------------
 (* Connector updates: backend/connector_updates.go                            *)
@@ -745,6 +756,109 @@ ConnDelete(m) ==
   /\ UNCHANGED <<uidNext, flg, sel, ro, snap, res, idle, mirror, taint, ever>>
 
 -----------------------------------------------------------------------------
+(* Further connector update kinds (C06): creation with flags, batches, ignored unknown mailboxes,           *)
+(* MessageUpdated with a changed literal, UIDValidityBumped; and the BYE a session with an invalidated      *)
+(* state gets.  These actions say what happens to inv and epoch themselves.                                *)
+
+\* MessagesCreated carrying flags F (how = "created") or MessageUpdated with AllowCreate for a message nobody knows
+\* (how = "updated", which the code turns into a MessagesCreated): m arrives in mailbox b with the shared flags F
+ConnCreateWith(m, b, F, how) ==
+  /\ Fresh(m) /\ F \subseteq SharedFlags /\ how \in {"created", "updated"}
+  /\ IF FitsLimits(b, rows[b], uidNext[b], 1)
+     THEN /\ rows' = [rows EXCEPT ![b] = Append(@, [m |-> m, uid |-> uidNext[b], del |-> FALSE])]
+          /\ uidNext' = [uidNext EXCEPT ![b] = @ + 1]
+          /\ ever' = [ever EXCEPT ![b] = @ \cup {<<uidNext[b], m>>}]
+          /\ flg' = [flg EXCEPT ![m] = F]
+          /\ used' = used \cup {m}
+          /\ q' = EnqueueAll(<<ExistsU(b, <<[m |-> m, uid |-> uidNext[b], f |-> F]>>, None)>>)
+          /\ Log("ConnCreateWith", None, <<m, b, AscFlags(F), how>>, "OK")
+     ELSE /\ UNCHANGED <<rows, uidNext, ever, flg, used, q>>
+          /\ Log("ConnCreateWith", None, <<m, b, AscFlags(F), how>>, "ERR")
+  /\ wire' = Quiet
+  /\ UNCHANGED <<dead, recd, sel, ro, snap, res, idle, mirror, taint, inv, epoch>>
+
+\* one MessagesCreated update with two new messages for the same mailbox: ONE Exists update carrying both,
+\* refused as a whole when both do not fit
+ConnCreateBatch(m1, m2, b) ==
+  /\ Fresh(m1) /\ Fresh(m2) /\ m1 # m2
+  /\ IF FitsLimits(b, rows[b], uidNext[b], 2)
+     THEN LET ar == AddRows(rows[b], b, uidNext[b], <<m1, m2>>)
+          IN /\ rows' = [rows EXCEPT ![b] = ar.rows]
+             /\ uidNext' = [uidNext EXCEPT ![b] = ar.next]
+             /\ ever' = EverAdd(b, ar.items)
+             /\ used' = used \cup {m1, m2}
+             /\ q' = EnqueueAll(<<ExistsU(b, ar.items, None)>>)
+             /\ Log("ConnCreateBatch", None, <<m1, m2, b>>, "OK")
+     ELSE /\ UNCHANGED <<rows, uidNext, ever, used, q>>
+          /\ Log("ConnCreateBatch", None, <<m1, m2, b>>, "ERR")
+  /\ wire' = Quiet
+  /\ UNCHANGED <<flg, dead, recd, sel, ro, snap, res, idle, mirror, taint, inv, epoch>>
+
+\* MessagesCreated with IgnoreUnknownMailboxIDs naming a mailbox nobody knows besides the mailboxes B (at most one):
+\* the unknown one is skipped; with B = {} the message exists afterwards without being in any mailbox
+ConnCreateIgnore(m, B) ==
+  /\ Fresh(m) /\ B \subseteq Boxes /\ Cardinality(B) <= 1
+  /\ LET be == BoxEffect(m, B)
+     IN IF be.fits
+        THEN /\ rows' = be.rows /\ uidNext' = be.next /\ ever' = be.ever
+             /\ q' = IF B = {} THEN q ELSE EnqueueAll(be.ups)
+             /\ used' = used \cup {m}
+             /\ Log("ConnCreateIgnore", None, <<m, AscBoxes(B)>>, "OK")
+        ELSE /\ UNCHANGED <<rows, uidNext, ever, q, used>>
+             /\ Log("ConnCreateIgnore", None, <<m, AscBoxes(B)>>, "ERR")
+  /\ wire' = Quiet
+  /\ UNCHANGED <<flg, dead, recd, sel, ro, snap, res, idle, mirror, taint, inv, epoch>>
+
+\* MessageUpdated with a changed literal: the old entity m is removed from every mailbox and marked deleted, a new
+\* entity n (the new literal, same remote id) is created with the flags F and put into the mailboxes B - one
+\* transaction; removals first (so the limits are checked against the mailboxes without m), all or nothing
+ConnUpdateNew(m, n, B, F) ==
+  /\ m \in used /\ Fresh(n) /\ n # m /\ F \subseteq SharedFlags /\ B \subseteq Boxes
+  /\ LET cur   == AscBoxes({b \in Boxes : HasMsg(rows[b], m)})
+         rows1 == [b \in Boxes |-> RemoveMsgs(rows[b], {m})]
+         ab    == AscBoxes(B)
+         fits  == \A b \in B : FitsLimits(b, rows1[b], uidNext[b], 1)
+     IN IF fits
+        THEN /\ rows' = [b \in Boxes |-> IF b \in B THEN Append(rows1[b], [m |-> n, uid |-> uidNext[b], del |-> FALSE])
+                                         ELSE rows1[b]]
+             /\ uidNext' = [b \in Boxes |-> IF b \in B THEN uidNext[b] + 1 ELSE uidNext[b]]
+             /\ ever' = [b \in Boxes |-> IF b \in B THEN ever[b] \cup {<<uidNext[b], n>>} ELSE ever[b]]
+             /\ flg' = [flg EXCEPT ![n] = F]
+             /\ used' = (used \ {m}) \cup {n}
+             /\ dead' = dead \cup {m}
+             /\ q' = EnqueueAll([i \in 1..Len(cur) |-> ExpungeU(cur[i], m)]
+                                \o [i \in 1..Len(ab) |-> ExistsU(ab[i], <<[m |-> n, uid |-> uidNext[ab[i]], f |-> F]>>, None)])
+             /\ Log("ConnUpdateNew", None, <<m, n, ab, AscFlags(F)>>, "OK")
+        ELSE /\ UNCHANGED <<rows, uidNext, ever, flg, used, dead, q>>
+             /\ Log("ConnUpdateNew", None, <<m, n, ab, AscFlags(F)>>, "ERR")
+  /\ wire' = Quiet
+  /\ UNCHANGED <<recd, sel, ro, snap, res, idle, mirror, taint, inv, epoch>>
+
+\* UIDValidityBumped: every mailbox gets a new, greater UIDVALIDITY; the update travels to every state
+ConnBump ==
+  /\ epoch' = [b \in Boxes |-> epoch[b] + 1]
+  /\ q' = EnqueueAll(<<BumpU>>)
+  /\ wire' = Quiet
+  /\ Log("ConnBump", None, <<>>, "OK")
+  /\ UNCHANGED <<rows, uidNext, flg, used, dead, recd, sel, ro, snap, res, idle, mirror, taint, ever, inv>>
+
+\* the next command of a session whose state was invalidated: untagged BYE, no completion, connection closed.
+\* The client of the model connects and logs in again at once: a new state, nothing selected, an empty queue.
+CmdBye(s) ==
+  /\ ~idle[s] /\ inv[s] /\ (DrainFirst => q[s] = <<>>)
+  /\ sel' = [sel EXCEPT ![s] = None]
+  /\ ro' = [ro EXCEPT ![s] = FALSE]
+  /\ snap' = [snap EXCEPT ![s] = <<>>]
+  /\ res' = [res EXCEPT ![s] = <<>>]
+  /\ q' = [q EXCEPT ![s] = <<>>]
+  /\ mirror' = [mirror EXCEPT ![s] = <<>>]
+  /\ taint' = [taint EXCEPT ![s] = {}]
+  /\ inv' = [inv EXCEPT ![s] = FALSE]
+  /\ wire' = [Quiet EXCEPT ![s] = <<[t |-> "BYE", n |-> 0]>>]
+  /\ Log("Bye", s, <<>>, "BYE")
+  /\ UNCHANGED <<rows, uidNext, flg, used, dead, recd, idle, ever, epoch>>
+
+-----------------------------------------------------------------------------
 (* Argument sets a configuration can substitute for StoreArgs (cfg: StoreArgs <- SA_...) *)
 SA(op, F, silent, asuid) == [op |-> op, F |-> F, silent |-> silent, asuid |-> asuid]
 SA_AddDeleted == {SA("add", {"Deleted"}, FALSE, FALSE)}
@@ -798,7 +912,7 @@ PSets(n) == IF PrefixSets THEN {1..k : k \in 0..n} ELSE SUBSET (1..n)
 On(a) == a \in Acts \/ (Script # <<>> /\ steps < Len(Script))
 \* who may issue commands now: everybody during a scripted prefix, the Actors afterwards
 Cmdrs == IF Script # <<>> /\ steps < Len(Script) THEN Sessions ELSE Actors
-Free ==
+FreeOld ==
   \/ On("Select") /\ \E s \in Cmdrs, b \in Boxes : CmdSelect(s, b, FALSE)
   \/ On("Examine") /\ \E s \in Cmdrs, b \in Boxes : CmdSelect(s, b, TRUE)
   \/ On("Close") /\ \E s \in Cmdrs : CmdClose(s, FALSE)
@@ -815,7 +929,6 @@ Free ==
   \/ On("Copy") /\ \E s \in Cmdrs, d \in Boxes : \E P \in PSets(Len(snap[s])) : CmdCopy(s, P, d)
   \/ On("Move") /\ \E s \in Cmdrs, d \in Boxes : \E P \in PSets(Len(snap[s])) : CmdMove(s, P, d)
   \/ On("Idle") /\ \E s \in Cmdrs : IdleBegin(s) \/ IdleDone(s)
-  \/ On("Deliver") /\ \E s \in Sessions : Deliver(s)
   \/ On("ConnSetBoxes") /\ \E m \in Msgs : \E B \in SUBSET Boxes : ConnSetBoxes(m, B) \/ ConnSetBoxesRefused(m, B)
   \/ On("ConnSetFlags") /\ \E m \in Msgs : \E F \in ConnFlagSets : ConnSetFlags(m, F)
   \/ On("ConnDelete") /\ \E m \in Msgs : ConnDelete(m)
@@ -824,15 +937,27 @@ Free ==
   \/ On("ConnCreateDup") /\ \E m \in Msgs : ConnCreateDup(m)
   \/ On("ConnCreateKnown") /\ \E m \in Msgs, b \in Boxes : ConnCreateKnown(m, b)
   \/ On("ConnIDChanged") /\ \E m \in Msgs : ConnIDChanged(m)
+\* the actions above were written before inv and epoch existed and leave them alone
+Free ==
+  \/ FreeOld /\ UNCHANGED <<inv, epoch>>
+  \/ On("Deliver") /\ \E s \in Sessions : Deliver(s)
+  \/ On("ConnCreateWith") /\ \E m \in Msgs, b \in Boxes : \E F \in SUBSET SharedFlags : \E how \in {"created", "updated"} :
+                                  (how = "created" => F # {}) /\ ConnCreateWith(m, b, F, how)
+  \/ On("ConnCreateBatch") /\ \E m1, m2 \in Msgs, b \in Boxes : ConnCreateBatch(m1, m2, b)
+  \/ On("ConnCreateIgnore") /\ \E m \in Msgs : \E B \in SUBSET Boxes : ConnCreateIgnore(m, B)
+  \/ On("ConnUpdateNew") /\ \E m, n \in Msgs : \E B \in SUBSET Boxes : \E F \in ConnFlagSets : ConnUpdateNew(m, n, B, F)
+  \/ On("ConnBump") /\ ConnBump
+  \/ On("Bye") /\ \E s \in Cmdrs : CmdBye(s)
 
 (* after MaxSteps free steps a simulated behaviour is driven to quiescence:    *)
 (* leave IDLE, deliver everything, then NOOP wherever responders are queued    *)
 Drain ==
-  \/ \E s \in Sessions : IdleDone(s)
+  \/ \E s \in Sessions : IdleDone(s) /\ UNCHANGED <<inv, epoch>>
   \/ (\A t \in Sessions : ~idle[t]) /\ \E s \in Sessions : Deliver(s)
-  \/ (\A t \in Sessions : ~idle[t] /\ q[t] = <<>>) /\ \E s \in Sessions : sel[s] # None /\ res[s] # <<>> /\ CmdNoop(s)
+  \/ (\A t \in Sessions : ~idle[t] /\ q[t] = <<>>) /\ \E s \in Sessions : CmdBye(s)
+  \/ (\A t \in Sessions : ~idle[t] /\ q[t] = <<>>) /\ \E s \in Sessions : sel[s] # None /\ res[s] # <<>> /\ CmdNoop(s) /\ UNCHANGED <<inv, epoch>>
 
-Quiescent == \A t \in Sessions : ~idle[t] /\ q[t] = <<>> /\ res[t] = <<>>
+Quiescent == \A t \in Sessions : ~idle[t] /\ q[t] = <<>> /\ res[t] = <<>> /\ ~inv[t]
 
 ViewOfSnap(sn) == [i \in 1..Len(sn) |-> [uid |-> sn[i].uid, f |-> AscFlags(sn[i].f), m |-> sn[i].m]]
 ViewOfMirror(mi) == [i \in 1..Len(mi) |-> [uid |-> mi[i].uid, f |-> IF mi[i].f = Unknown THEN <<"?">> ELSE AscFlags(mi[i].f)]]
@@ -851,7 +976,7 @@ StepRecord ==
               [uid |-> rows'[b][i].uid, m |-> rows'[b][i].m,
                f |-> AscFlags(flg'[rows'[b][i].m] \cup (IF rows'[b][i].del THEN {"Deleted"} ELSE {}))]]],
    flg |-> [m \in Msgs |-> AscFlags(flg'[m])], used |-> used',
-   uidnext |-> uidNext']
+   uidnext |-> uidNext', inv |-> inv', epoch |-> epoch']
 
 Keep == IF Record THEN hist' = Append(hist, StepRecord) ELSE hist' = hist
 
@@ -869,17 +994,19 @@ KindActs == [sel |-> {"Select", "Examine", "Close", "Unselect"}, append |-> {"Ap
              fetch |-> {"Fetch", "FetchBody", "Refused"}, expunge |-> {"Expunge", "UidExpunge"}, noop |-> {"Noop"},
              copymove |-> {"Copy", "Move"}, idle |-> {"IdleBegin", "IdleDone"},
              deliver |-> {"Deliver"}, deliver2 |-> {"Deliver"}, deliver3 |-> {"Deliver"},
-             conn |-> {"ConnSetBoxes", "ConnSetFlags", "ConnDelete", "ConnUpdateSame", "ConnBad", "ConnCreateDup", "ConnCreateKnown", "ConnIDChanged"}]
+             conn |-> {"ConnSetBoxes", "ConnSetFlags", "ConnDelete", "ConnUpdateSame", "ConnBad", "ConnCreateDup", "ConnCreateKnown", "ConnIDChanged"},
+             conn2 |-> {"ConnCreateWith", "ConnCreateBatch", "ConnCreateIgnore", "ConnUpdateNew", "ConnBump"},
+             bye |-> {"Bye"}]
 Kinds == {k \in DOMAIN KindActs : \E a \in KindActs[k] : a \in Acts \/ (a \in {"IdleBegin", "IdleDone"} /\ "Idle" \in Acts)}
 DrawKind ==
   /\ pick = None
   /\ \E k \in Kinds : pick' = k
   /\ wire' = Quiet
-  /\ UNCHANGED <<rows, uidNext, flg, used, dead, recd, sel, ro, snap, res, q, idle, mirror, taint, ever, last, steps, hist>>
+  /\ UNCHANGED <<rows, uidNext, flg, used, dead, recd, sel, ro, snap, res, q, idle, mirror, taint, ever, inv, epoch, last, steps, hist>>
 SkipDraw ==
   /\ pick # None /\ pick' = None
   /\ wire' = Quiet
-  /\ UNCHANGED <<rows, uidNext, flg, used, dead, recd, sel, ro, snap, res, q, idle, mirror, taint, ever, last, steps, hist>>
+  /\ UNCHANGED <<rows, uidNext, flg, used, dead, recd, sel, ro, snap, res, q, idle, mirror, taint, ever, inv, epoch, last, steps, hist>>
 SimNext ==
   \/ (steps < PhaseLen /\ Script # <<>> /\ steps < Len(Script)) /\ Free /\ Scripted /\ Keep
   \/ (steps < PhaseLen /\ ~(Script # <<>> /\ steps < Len(Script))) /\
@@ -899,9 +1026,11 @@ DrainDet ==
   LET si == FirstSuch(LAMBDA t : idle[t])
       sd == FirstSuch(LAMBDA t : q[t] # <<>>)
       sn == FirstSuch(LAMBDA t : sel[t] # None /\ res[t] # <<>>)
-  IN IF si # None THEN IdleDone(si)
+      sb == FirstSuch(LAMBDA t : inv[t])
+  IN IF si # None THEN IdleDone(si) /\ UNCHANGED <<inv, epoch>>
      ELSE IF sd # None THEN Deliver(sd)
-     ELSE IF sn # None THEN CmdNoop(sn)
+     ELSE IF sb # None THEN CmdBye(sb)
+     ELSE IF sn # None THEN CmdNoop(sn) /\ UNCHANGED <<inv, epoch>>
      ELSE FALSE
 AllNext == ((steps < PhaseLen /\ Free /\ Scripted) \/ (steps >= PhaseLen /\ DrainDet)) /\ Keep
 
@@ -909,6 +1038,8 @@ Spec == Init /\ [][Next]_vars
 
 \* state constraint for the exhaustive configurations
 Bound == \A s \in Sessions : Len(res[s]) <= MaxRes /\ Len(q[s]) <= MaxQ
+\* ... and for configurations with UIDValidityBumped (epoch grows for ever otherwise)
+BoundE == Bound /\ \A b \in Boxes : epoch[b] <= 1
 
 \* simulation: print the behaviour once it is quiescent after the free phase (used as an "invariant")
 EmitBehaviour ==
@@ -1000,6 +1131,17 @@ RemovalBeforeReAdd ==
 \* C03 -- a refused command changes nothing
 FailedIsNoop == [][last'.status \in {"NO", "ERR"} =>
                      (rows' = rows /\ flg' = flg /\ uidNext' = uidNext /\ (last'.act # "Append" => q' = q))]_vars
+
+\* C06 -- UIDValidityBumped: a state is invalid only while it has a mailbox selected; BYE is sent for nothing else and
+\* ends the selection; UIDVALIDITY (epoch) changes through ConnBump only, for every mailbox, upwards
+InvalidHasSelection == \A s \in Sessions : inv[s] => sel[s] # None
+ByeOnlyWhenInvalid ==
+  [][\A s \in Sessions : (\E i \in 1..Len(wire'[s]) : wire'[s][i].t = "BYE") => (inv[s] /\ ~inv'[s] /\ sel'[s] = None /\ last'.act = "Bye")]_vars
+EpochOnlyByBump ==
+  [][\A b \in Boxes : /\ epoch'[b] >= epoch[b]
+                       /\ (epoch'[b] # epoch[b] => last'.act = "ConnBump" /\ \A c \in Boxes : epoch'[c] = epoch[c] + 1)]_vars
+\* a connector update that names a message addresses the entity that currently carries that name: nothing dead is in a mailbox
+DeadNowhere == \A b \in Boxes : MsgsOf(rows[b]) \cap dead = {}
 
 \* C17
 WithinLimits == \A b \in Boxes : Len(rows[b]) <= MaxMsgs /\ uidNext[b] - 1 <= LimitUid
